@@ -22,6 +22,18 @@ CLAIMED = {
    text="ValidateTOTP is executed from its SSA: (base) with the real time-counter hook on an arbitrary instant and symbolic period the solver proves the single derivation of skew 0 uses n with n*p <= u < (n+1)*p (period 0 and nil parameters = 30 s) and accept <=> string == CODE(n); (window) with the package's replaceable time-counter hook returning an arbitrary step n >= s the solver proves accept <=> exists k in [-s,s]: string == CODE(n+k) for arbitrary bytes / codes of arbitrary steps / single-byte edits, that the hook is evaluated once with the resolved period; (refuse) every skew > 10 is refused with zero derivations, with the loop's unwinding assertion (bound 40) treated as a violation of the bounded-work clause.",
    note="Bounds: skews {0,1,2,10} quick / 0..10 thorough; periods {0,30} quick, {0,1,30,3600,2^32} thorough in window, symbolic 0..2^32 in base; u < 2^62. Contracts as C03.",
    design="DESIGN.md section 2/C04"),
+ "C07": dict(
+   text="DecodeSecret is executed from its SSA together with the standard library's base32 decoder ((*Encoding).DecodeString/decode/stripNewlines from their SSA bodies, StdEncoding built by executing encoding/base32's initialiser); strings.TrimSpace/ToUpper/Repeat are ASCII-exact intrinsics. For every byte string b of the case-split length the text is built by an independent spec encoder (5-bit groups mapped by arithmetic) with a free upper/lower-case bit per letter, no / canonical / every partial amount of padding and 0..2 leading and trailing white-space bytes from {space,\\t,\\n,\\r,\\v,\\f}; the solver proves DecodeSecret(text) == (b, nil) byte by byte. Rejection: for ASCII texts of length 1..8 (16 thorough) with a byte outside the alphabet at an arbitrary position, alphabet-only texts of length 1,3,6 mod 8, and '=' followed by an alphabet character, every path returns an error.",
+   note="Bounds: |b| 0..10 quick, 0..20,25,32,33,64 thorough (of 0..256: the decoder works on independent 8-character quanta). Outside: non-ASCII bytes (Unicode case mapping / Unicode white space inside strings.ToUpper / TrimSpace are not modelled: such paths end as 'bound', never as holding), CR/LF inside the text (Go's decoder strips them). That all entry points hand their secret argument unchanged to DecodeSecret is asserted inside the DecodeSecret contract stub used by C02-C06/C13.",
+   design="DESIGN.md section 2/C07"),
+ "C08": dict(
+   text="RandomSecret is executed from its SSA with crypto/rand.Read as the only nondeterministic stub (fills the buffer with fresh variables r_i) and the standard library's base32 encoder from its SSA ((*Encoding).WithPadding/EncodeToString/Encode). The solver proves for the three hashes that exactly one read of exactly 20/32/64 bytes is made and that the result equals, byte for byte, the unpadded upper-case base32 text of r (independent spec encoder), that DecodeSecret maps it back to r, that a second call uses only the second read's variables (syntactic independence from the first stream), and for every unsupported hash value that (\"\", err) is returned without touching the random source.",
+   note="Bounds: none on the stream content; decode round-trip through the real decoder for 20 bytes quick, 20/32/64 thorough. Trusted: that crypto/rand.Reader is the OS CSPRNG and never repeats (its contract); a read error cannot be returned by crypto/rand.Read in Go 1.24 (it aborts the process), so no error outcome is modelled.",
+   design="DESIGN.md section 2/C08"),
+ "C14": dict(
+   text="OCRAInput.Validate, SuiteConfig.Validate, RawSuite.Validate/Config and challengeLength are executed from their SSA with all five field lengths symbolic (0..140, or nil), every SuiteConfig field symbolic (hash 0..255, digits and time step any int, challenge format 0..6, password hash 0..3, five free flags): on every path the solver proves err == nil <=> the property's predicate (written once from its text as a formula over the lengths and fields) for both validators. Through GenerateOCRA / ValidateOCRA (hash, digits per case, everything else symbolic, undecodable secret as an extra failure cause) it proves success <=> decodable and usable and admitted, no code with an error, code length = digits, and (false, err) from validation whenever generation would fail.",
+   note="Bounds: field lengths 0..140; enum values of ChallengeFormat / PasswordHashAlgorithm restricted to the declared constants (the property quantifies over formats and password hashes; with an undeclared PasswordHash the code only checks presence - observation, not alarmed on); entry harness: hash {0,2,3}, digits {6,11} quick, hash 0..3, digits {3,4,6,10,11} thorough. HMAC digests are fresh variables here.",
+   design="DESIGN.md section 2/C14"),
 }
 
 NA_REASON_PENDING = "not yet built in this session: no solver-based check registered (see DESIGN.md for the planned encoding)"
